@@ -162,7 +162,7 @@ def views_problem(m, items, keys_alphabet):
     if len(m) != len(order):
         return "len"
     ks = list(m.keys())
-    if sorted(ks) != sorted(order) or len(set(ks)) != len(ks):
+    if sorted(ks, key=repr) != sorted(order, key=repr) or len(set(ks)) != len(ks):
         return "keys"
     if list(iter(m)) != ks:
         return "iter-vs-keys"
@@ -264,7 +264,7 @@ def aliasing(ctx, pairs, rng):
 def immutable_views(ctx, pairs, rng):
     from baize.datastructures import FormData, MultiMapping, MutableMultiMapping, QueryParams
     ctx.mon("immutable-views")
-    ks = sorted({k for k, _ in pairs}) + ["zz"]
+    ks = sorted({k for k, _ in pairs}, key=repr) + ["zz"]
     objs = {"MultiMapping": MultiMapping(list(pairs)), "QueryParams": QueryParams(list(pairs)),
             "FormData": FormData(list(pairs)), "MutableMultiMapping": MutableMultiMapping(list(pairs)),
             "MultiMapping(MultiMapping)": MultiMapping(MultiMapping(list(pairs))),
@@ -273,6 +273,8 @@ def immutable_views(ctx, pairs, rng):
         vp = views_problem(o, list(pairs), ks)
         if vp:
             ctx.violation(f"immutable-view|{name}|{vp}", {"pairs": pairs}, "")
+    if any(not isinstance(v, str) or not isinstance(k, str) for k, v in pairs):
+        return  # values that are not text: the mappings are containers like any other; the string form is not judged
     # one-shot iterables (generator, iterator, zip) as constructor input
     for cname, cls in (("MultiMapping", MultiMapping), ("MutableMultiMapping", MutableMultiMapping), ("QueryParams", QueryParams), ("FormData", FormData)):
         for iname, it in (("generator", (p for p in pairs)), ("iter", iter(list(pairs))), ("zip", zip([k for k, _ in pairs], [v for _, v in pairs]))):
@@ -340,6 +342,9 @@ def run(ctx):
                   rng.choice(QS_ALPHA) + rng.choice(["", "", rng.choice(QS_ALPHA)])) for _ in range(rng.randrange(0, 6))]
         immutable_views(ctx, pairs, rng)
         ctx.case(("q", tuple(pairs)) if len(pairs) > 1 else None)
+        if i % 4 == 0:
+            mixed = [(rng.choice(["a", "b", "", 7]), rng.choice(["x", "", 0, None, 1.5, b"raw", ("t",), True])) for _ in range(rng.randrange(1, 6))]
+            immutable_views(ctx, mixed, rng)
         ab = [(rng.choice("ab"), rng.choice((1, 2))) for _ in range(rng.randrange(0, 5))]
         acase = aliasing(ctx, ab, rng)
         ctx.case(("alias", repr(acase)))
